@@ -83,11 +83,18 @@ pub enum Op {
     Require(u8),
     /// set (or create in the top scope) the best-individual memory
     SetBest(Option<f64>),
+    /// a fresh best-individual memory in the *current* scope (what a nested heuristic's
+    /// initialisation does), holding nothing or the given value
+    SetBestHere(Option<f64>),
     /// `set_value::<T>(v)` while a shared (`excl = false`) or exclusive guard on the innermost
     /// `T` is alive: must be refused (`None`) and must not touch any other scope
     SetWhileBorrowed(u8, bool, u32),
     /// `try_get_value::<T>()` while an exclusive guard on the innermost `T` is alive
     GetWhileBorrowedMut(u8),
+    /// `try_get_multiple_mut::<(Ta, Tb[, Tc])>()` for entry `entry` of the tuple catalogue, then
+    /// `vals` written through the references: every element resolves on its own to the
+    /// innermost scope holding its type
+    MultiWrite { entry: u16, vals: Vec<u32> },
 }
 
 #[derive(Clone, Debug, PartialEq, Serialize, Deserialize)]
@@ -112,6 +119,8 @@ pub enum Ret {
         seen: u64,
         ok: bool,
     },
+    /// values the references of a multi-borrow pointed at
+    Multi(Vec<u64>),
     /// anything the model cannot produce (wrong error kind etc.)
     Unexpected(String),
 }
@@ -293,6 +302,11 @@ impl Model {
                 }
                 Ret::Unit
             }
+            Op::SetBestHere(v) => {
+                let bits = v.map(|x| x.to_bits()).unwrap_or(NONE);
+                self.top().insert(TAG_BEST, bits);
+                Ret::Unit
+            }
             // a guard on the innermost T is alive: the request is refused, nothing changes
             Op::SetWhileBorrowed(t, _, _) => Ret::Opt(None).min_found(self.find(*t).is_some()),
             Op::GetWhileBorrowedMut(t) => {
@@ -302,8 +316,29 @@ impl Model {
                     Ret::NotFound
                 }
             }
+            Op::MultiWrite { entry, vals } => {
+                let tuple = multi_entry(*entry).0;
+                let mut sorted = tuple.to_vec();
+                sorted.sort();
+                sorted.dedup();
+                if sorted.len() != tuple.len() {
+                    Ret::Conflict
+                } else if tuple.iter().any(|t| self.find(*t).is_none()) {
+                    Ret::NotFound
+                } else {
+                    let old = tuple.iter().zip(vals).map(|(t, v)| self.set(*t, *v as u64).expect("present")).collect();
+                    Ret::Multi(old)
+                }
+            }
         }
     }
+}
+
+/// Entry of the (generated) multi-borrow tuple catalogue.
+pub fn multi_entry(i: u16) -> super::multi_catalogue::Entry {
+    static CAT: std::sync::OnceLock<Vec<super::multi_catalogue::Entry>> = std::sync::OnceLock::new();
+    let cat = CAT.get_or_init(super::multi_catalogue::catalogue);
+    cat[i as usize % cat.len()]
 }
 
 impl Ret {
@@ -558,6 +593,12 @@ pub fn apply_real(op: &Op, st: &mut St) -> Ret {
             **st.borrow_mut::<BestIndividual<EP>>() = ind;
             Ret::Unit
         }
+        Op::SetBestHere(v) => {
+            let ind = v.map(|x| Individual::<EP>::new(Vec::new(), SingleObjective::try_from(x).expect("harness: valid objective")));
+            st.insert(BestIndividual::<EP>::new());
+            **st.borrow_mut::<BestIndividual<EP>>() = ind;
+            Ret::Unit
+        }
         Op::SetWhileBorrowed(t, excl, v) => with_ty!(*t, T => {
             if *excl {
                 match st.try_borrow_mut::<T>() {
@@ -571,6 +612,12 @@ pub fn apply_real(op: &Op, st: &mut St) -> Ret {
                 }
             }
         }),
+        Op::MultiWrite { entry, vals } => match (multi_entry(*entry).1)(st, vals) {
+            super::multi::MultiOutcome::Repeat => Ret::Conflict,
+            super::multi::MultiOutcome::Missing => Ret::NotFound,
+            super::multi::MultiOutcome::Refs { old, .. } => Ret::Multi(old.into_iter().map(|v| v as u64).collect()),
+            super::multi::MultiOutcome::Other(e) => Ret::Unexpected(e),
+        },
         Op::GetWhileBorrowedMut(t) => with_ty!(*t, T => {
             match st.try_borrow_mut::<T>() {
                 Ok(_guard) => match st.try_get_value::<T>() {
@@ -652,6 +699,13 @@ impl<'a> OpGen<'a> {
                     Op::Holding { t, write, ops, fail: self.g.chance(0.4) }
                 }
                 98 => Op::Require(t),
+                99 if self.g.chance(0.5) => {
+                    // the 2- and 3-tuples over the first four probe types
+                    let entry = self.g.below(80) as u16;
+                    let n = multi_entry(entry).0.len();
+                    let vals = (0..n).map(|_| self.val()).collect();
+                    Op::MultiWrite { entry, vals }
+                }
                 99 => {
                     if self.g.chance(0.5) {
                         Op::SetWhileBorrowed(t, self.g.chance(0.5), self.val())
